@@ -101,3 +101,88 @@ Proof.
   cbn [List.length skipn] in Hr, Hd. exists r. split; [|exact Hd].
   unfold extract_message. rewrite Hr. cbn [bind]. destruct (cl_sender cl <=? 0) eqn:E; [lia|reflexivity].
 Qed.
+
+(* ---- agreement with log mode on what libwayland's print-out retains ------------------------------ *)
+From WD Require Import Decode DecodeRoundTrip.
+Open Scope Z_scope.
+
+(* the print-out loses: array elements, the interface of a non-null plain object (it prints the
+   actual one, GDB mode reports the declared one), the declared interface of a null argument *)
+Definition retained_arg (a : parg) : parg :=
+  match a with
+  | PObj id ty false => PObj id None false
+  | PArray _ => PArray None
+  | PNull _ => PNull None
+  | _ => a
+  end.
+
+Fixpoint wire_args (cs : str) (tys : list (option str)) (vs : list cval) : option (list warg) :=
+  match cs, vs with
+  | [], [] => Some []
+  | c :: cs', v :: vs' =>
+      let ty := match tys with t :: _ => t | [] => None end in
+      match wire_arg ty c v, wire_args cs' (tl tys) vs' with
+      | Some a, Some r => Some (a :: r)
+      | _, _ => None
+      end
+  | _, _ => None
+  end.
+
+Definition no_null_string (vs : list cval) : bool :=
+  forallb (fun v => match v with CStr None => false | _ => true end) vs.
+
+Definition cur : dialect := mkDialect true true true true false.
+
+Lemma retained_args_agree cs : forall tys vs args wargs,
+  cvals_ok cs vs = true -> no_null_string vs = true ->
+  denote_args cs tys vs = Some args -> wire_args cs tys vs = Some wargs ->
+  map retained_arg args = map retained_arg (map (denote_arg cur) wargs).
+Proof.
+  induction cs as [|c cs IH]; intros tys vs args wargs Hok Hnn Hd Hw.
+  - destruct vs; [|discriminate]. cbn in Hd, Hw. injection Hd as <-. injection Hw as <-. reflexivity.
+  - destruct vs as [|v vs]; [discriminate|]. cbn [cvals_ok] in Hok. apply andb_true_iff in Hok. destruct Hok as [Hv Hrest].
+    cbn [no_null_string forallb] in Hnn. apply andb_true_iff in Hnn. destruct Hnn as [Hn1 Hn2].
+    cbn [denote_args] in Hd. cbn [wire_args] in Hw.
+    set (ty := match tys with t :: _ => t | [] => None end) in *.
+    destruct (denote_carg ty c v) as [a|] eqn:Ea; [|discriminate].
+    destruct (denote_args cs (tl tys) vs) as [r|] eqn:Er; [|discriminate]. injection Hd as <-.
+    destruct (wire_arg ty c v) as [wa|] eqn:Ewa; [|discriminate].
+    destruct (wire_args cs (tl tys) vs) as [wr|] eqn:Ewr; [|discriminate]. injection Hw as <-.
+    cbn [map]. f_equal; [|eapply IH; eassumption].
+    clear -Hv Hn1 Ea Ewa.
+    destruct v as [z|k|[s|]|[[ifc id]|]|id ao|l]; cbn [cval_ok denote_carg wire_arg] in *; try discriminate.
+    + assert (Hc3 : (c = 105 \/ c = 117 \/ c = 104)%N).
+      { apply orb_true_iff in Hv. destruct Hv as [Hv|Hv]; [apply orb_true_iff in Hv; destruct Hv as [Hv|Hv]|]; apply N.eqb_eq in Hv; auto. }
+      destruct Hc3 as [->|[->| ->]]; cbn in Ea, Ewa; injection Ea as <-; injection Ewa as <-; reflexivity.
+    + rewrite Hv in Ea. injection Ea as <-. injection Ewa as <-. reflexivity.
+    + rewrite Hv in Ea. injection Ea as <-. injection Ewa as <-. reflexivity.
+    + apply andb_true_iff in Hv. destruct Hv as [Hv _]. rewrite Hv in Ea. injection Ea as <-. injection Ewa as <-. reflexivity.
+    + rewrite Hv in Ea. injection Ea as <-. injection Ewa as <-. reflexivity.
+    + apply andb_true_iff in Hv. destruct Hv as [Hv _]. rewrite Hv in Ea. injection Ea as <-. injection Ewa as <-. reflexivity.
+    + rewrite Hv in Ea. injection Ea as <-. injection Ewa as <-. reflexivity.
+Qed.
+
+(* C09: in everything libwayland's print-out of the closure retains, GDB mode agrees with what log
+   mode decodes from that print-out (current dialect), provided the print-out is in the domain of
+   C01 and no string argument is NULL (known finding D5) *)
+Theorem gdb_agrees_with_log k target cl time wargs queue conn :
+  wf_closure cl = true -> no_null_string (cl_args cl) = true ->
+  wire_args (codes (cl_sig cl)) (cl_types cl) (cl_args cl) = Some wargs ->
+  let w := mkWmsg (Z.to_N time) queue conn (match k with Sent => true | _ => false end) target (cl_sender cl) (cl_name cl) wargs in
+  wf_wmsg w = true -> 0 <= time ->
+  exists gm lm cid,
+    extract_message k target cl time = Ok gm /\ message (render cur w) = Ok (cid, lm) /\
+    p_time gm = p_time lm /\ p_id gm = p_id lm /\ p_sent gm = p_sent lm /\ p_name gm = p_name lm /\
+    (match k with Sent => True | _ => p_type gm = p_type lm end) /\
+    map retained_arg (p_args gm) = map retained_arg (p_args lm).
+Proof.
+  intros Hwf Hnn Hw w Hww Ht.
+  destruct (extract_exact k target cl time Hwf) as (args & He & Hd).
+  pose proof (decode_render cur w Hww) as Hdr. unfold denote in Hdr.
+  eexists _, _, _. split; [exact He|]. split; [exact Hdr|].
+  cbn [p_time p_id p_sent p_name p_type p_args w_time w_id w_sent w_name w_iface w_args w].
+  split; [rewrite Z2N.id; [reflexivity|exact Ht]|]. split; [reflexivity|]. split; [reflexivity|]. split; [reflexivity|].
+  split; [destruct k; try reflexivity; exact I|].
+  unfold wf_closure in Hwf. apply andb_true_iff in Hwf. destruct Hwf as [Hwf _]. apply andb_true_iff in Hwf. destruct Hwf as [Hok _].
+  eapply retained_args_agree; eassumption.
+Qed.
